@@ -20,6 +20,9 @@ def run(chk, tier):
         F = load(chk, cfg)
         E.eval_dyn_table(chk, F, 'R16.4', cfg)
         E.eval_table(chk, F, 'R16.4.eval', cfg)
+        # R16.6 'panics naming the call': the text the mock panics with is the rendering of this call's own error
+        from props.c08 import panic_message_is_the_error
+        panic_message_is_the_error(chk, F, 'R16.6', cfg)
         rep = F.fn('private::Continuation::report')
         from symex import decision_variant
         rrows = tables.abstract(symex.Interp(F).run(rep),
